@@ -6,7 +6,7 @@ ROOT = os.path.dirname(os.path.dirname(os.path.abspath(__file__)))
 E1 = "E1 stream x schedule explorer (hxmc/props)"
 CHECKS = {
  "C01": ("E1", "bounded exhaustive enumeration of streams x append schedules on the real Indicator; differential oracle batch vs schedule, plus step-confluence on full state",
-         "No word over the candle alphabet of length <= n, cut into appends in every possible way (all compositions, preloads, with/without calculate), makes any shipped indicator config differ from its batch result; deeper lengths by step confluence (every single append from every batch state lands on the batch state, cursors included).",
+         "No word over the candle alphabet of length <= n, cut into appends in every possible way (all compositions, preloads with/without calculate, restart by a second instance over already calculated candles), makes any shipped indicator config differ from its batch result; a plumbing dimension enumerates every gap word (same bucket / next / skip / far, sub-second parts) x every composition; chained indicators and Hexital member sets with differing fill flags in both listing orders; deeper lengths by step confluence on the full state.",
          "alphabet of 4-6 candle shapes, periods 2-6, timeframes none/T2(+fill) (thorough: S30,H1,D1,HA); bit-exact float comparison of two runs of the same code", "6 C01"),
  "C02": ("E1", "bounded exhaustive enumeration of append histories with a snapshot after every append; prefix oracle on closed candles, batch-over-every-prefix oracle",
          "For every enumerated stream and schedule, every snapshot minus the open bucket is a prefix of every later snapshot, and batch over every prefix is a prefix of batch over the whole stream (no look-ahead).",
@@ -24,7 +24,7 @@ CHECKS = {
          "RSI/MACD/ROC/STOCH/TSI/AROON/ADX/OBV/VWAP equal their definitions within rounding on every enumerated stream.",
          "undefined quotients (zero ranges/denominators) are skipped by the reference and constrained by C09/C10 instead", "6 C06"),
  "C08": ("E1", "bounded exhaustive enumeration of member sets x forms x Hexital settings x streams x supply schedules; differential oracle against a standalone twin",
-         "Every enumerated Hexital member (object, dict, settings form; singletons of every class, pairs, triples) has exactly the candles and readings of a standalone twin with the effective configuration read off the member.",
+         "Every enumerated Hexital member (object, dict, settings form; singletons of every class, pairs, triples; timeframe spellings; history at construction, appended, or both; every gap word under fill for nested member timeframes) has exactly the candles and readings of a standalone twin with the effective configuration read off the member.",
          "member timeframes are multiples of the Hexital timeframe; one known finding (lifespan + member timeframe) characterised differentially", "6 C08"),
  "C09": ("E1", "bounded exhaustive enumeration of degenerate stream families; invariant oracle on every stored value",
          "No enumerated stream (flat, zero-volume, monotone, long identical runs, fill candles) makes append/calculate raise, store a non-finite value, or leave a gap after the first value of an output field.",
@@ -42,10 +42,10 @@ CHECKS = {
          "For every listed zone (half-hour, 45-minute, DST) and every enumerated stream the collapsed candles are identical to the UTC run.",
          "tzdata of the image; listed zones and dates only", "6 C18"),
  "C13": ("E2", "explicit-state BFS over operation sequences on a Hexital holding pairs/triples; differential oracle against a Hexital holding the other indicator alone",
-         "In every reachable state of every enumerated pair/triple and operation word, every untouched indicator has exactly the readings it has alone.",
+         "In every reachable state of every enumerated pair/triple (all ordered pairs of the pool, name-relationship triples, members on shared/nested/differently spelled/fill-flagged timeframes over a gappy stream) and operation word aimed at either member, every other indicator has exactly the readings it has alone.",
          "shipped naming; user supplied fullname_override collisions are outside the alphabet", "6 C13"),
  "C14": ("E2", "explicit-state BFS over maintenance operation sequences with state deduplication; transition and state oracles",
-         "Every operation sequence up to the depth bound over the menu converges to the batch state after calculate(), with per-transition idempotence/purge/recompute oracles.",
+         "Every operation sequence up to the depth bound over the menu (incl. re-adding the very object that was removed, members on their own timeframe, Hexital-level HA/timeframe/fill) converges to the batch state after calculate(), with per-transition idempotence/purge/recompute oracles; states are deduplicated on a deep snapshot of the whole object graph.",
          "indices restricted as the property says", "6 C14"),
  "C15": ("E1", "bounded exhaustive enumeration of streams x lifespans x schedules; window invariant + differential against an untrimmed twin on eligible cases",
          "After every append exactly the lifespan window is retained; readings equal the untrimmed twin whenever look-back was retained.",
@@ -57,7 +57,7 @@ CHECKS = {
          "Every movement predicate agrees with its one-line reference on all enumerated inputs; geometry on the full grid; patterns on witnesses/counter-witnesses with 2x margins.",
          "one admitted window convention for highestbar/lowestbar", "6 C17"),
  "C19": ("E2", "explicit-state exploration of accessor/append interleavings with full deep snapshots before/after each accessor; encoding differential",
-         "No accessor in the menu changes any reachable state; all encodings of a candle give the same state; caller containers unchanged.",
+         "In every reachable state (incl. lifespan-trimmed ones) applying any accessor of the menu leaves the object observationally equal - all candles of all timeframes and the results of all accessors - immediately and after 1 and 2 further appends; all 9 encodings of a candle give the same state; caller containers unchanged.",
          "deep snapshot of instance dicts", "6 C19"),
  "C20": ("E1", "exhaustive enumeration of states x names x indices; agreement oracle between all access paths",
          "All access paths agree in every enumerated state, has_reading iff latest is not None, reading_count = trailing run.",
